@@ -47,6 +47,8 @@ struct vsim_engine {
   std::string smp = "serial";                  // serial | omp | perm
   std::vector<int> perm;                       // explicit permutation for "perm"
   int nthreads = 1;
+  std::vector<int> assign;                     // (C12) explicit thread of the k-th executed item (default: k mod nthreads)
+  std::vector<std::pair<std::string, double> > script_forces;  // (C12) scripted-force task: force added to named scalar variables
   void resize(int n) {
     natoms = n;
     mass.assign(n, 1.0); charge.assign(n, 0.0);
@@ -68,6 +70,10 @@ public:
   std::string errtext;
   std::mutex smp_mutex;
   static thread_local int my_thread_id;
+  // (C12) the work items of the last SMP loops, as the module built them
+  std::vector<std::pair<std::string, int> > last_cvc_items;
+  std::vector<std::string> last_bias_items;
+  bool cvc_loop_ran = false, bias_loop_ran = false;
 
   vsim_proxy(vsim_engine *e, bool quiet_in = true) : eng(e), quiet(quiet_in)
   {
@@ -128,13 +134,16 @@ public:
     return COLVARS_OK;
   }
 
+  std::mutex log_mutex;   // (C12) items running on several threads may log at the same time
   void log(std::string const &message) override
   {
+    std::lock_guard<std::mutex> g(log_mutex);
     if (logos) (*logos) << message;
     if (!quiet) std::cerr << "colvars: " << message;
   }
   void error(std::string const &message) override
   {
+    std::lock_guard<std::mutex> g(log_mutex);
     add_error_msg(message);
     errtext += message;
     if (logos) (*logos) << message;
@@ -156,6 +165,10 @@ public:
   }
 
   void add_energy(cvm::real e) override { bias_energy += e; energies_added.push_back(e); }
+
+  // scripted-forces callback (scriptedColvarForces on): unset => same answer as the base class
+  // (run_force_callback() below uses it when set, then the C12 `forcescript` list)
+  std::function<int()> force_callback;
 
   int check_atom_id(int atom_number) override
   {
@@ -193,69 +206,111 @@ public:
     if (eng->smp == "serial") return smp_mode_t::none;
     return smp_mode;
   }
-  int smp_loop(int n_items, std::function<int(int)> const &worker) override
+  // (C12) run `order` (a list of item indices) on nthreads std::threads: the k-th entry goes to thread
+  // eng->assign[k] when given, otherwise k mod nthreads; each thread runs its entries in list order
+  void run_schedule(std::vector<int> const &order, std::function<void(int, int)> const &work, bool raise_depth = false)
   {
-    if (eng->smp == "omp") return colvarproxy_smp::smp_loop(n_items, worker);
-    // explicit permutation, items dealt round-robin to nthreads std::threads
-    std::vector<int> order;
-    for (int i = 0; i < n_items; i++) order.push_back(i);
-    if ((int) eng->perm.size() >= n_items) {
-      order.clear();
-      for (size_t i = 0; i < eng->perm.size(); i++)
-        if (eng->perm[i] < n_items) order.push_back(eng->perm[i]);
-    }
-    int error_code = COLVARS_OK;
-    cvm::increase_depth();
     int nt = std::max(1, eng->nthreads);
     if (nt == 1) {
-      for (int i : order) error_code |= worker(i);
-    } else {
-      std::vector<std::thread> ths;
-      std::vector<int> codes(nt, 0);
-      for (int t = 0; t < nt; t++) {
-        ths.emplace_back([&, t]() {
-          my_thread_id = t;
-          for (size_t k = t; k < order.size(); k += nt) codes[t] |= worker(order[k]);
-        });
-      }
-      for (auto &th : ths) th.join();
-      for (int t = 0; t < nt; t++) error_code |= codes[t];
+      if (raise_depth) cvm::increase_depth();
+      for (int i : order) work(i, 0);
+      if (raise_depth) cvm::decrease_depth();
+      return;
     }
-    cvm::decrease_depth();
+    std::vector<std::vector<int> > q(nt);
+    for (size_t k = 0; k < order.size(); k++) {
+      int t = (k < eng->assign.size()) ? eng->assign[k] : (int) (k % nt);
+      if (t < 0 || t >= nt) t = (int) (k % nt);
+      q[t].push_back(order[k]);
+    }
+    cvm::depth();    // allocate the per-thread depth counters before the threads start
+    std::vector<std::thread> ths;
+    for (int t = 0; t < nt; t++) {
+      ths.emplace_back([&, t]() {
+        my_thread_id = t;
+        // as colvarproxy_smp::smp_loop: every thread that runs items raises its own depth counter
+        if (raise_depth) cvm::increase_depth();
+        for (int i : q[t]) work(i, t);
+        if (raise_depth) cvm::decrease_depth();
+      });
+    }
+    for (auto &th : ths) th.join();
+  }
+  std::vector<int> schedule_order(int n)
+  {
+    std::vector<int> order;
+    if ((int) eng->perm.size() >= n && n > 0) {
+      for (size_t i = 0; i < eng->perm.size(); i++)
+        if (eng->perm[i] >= 0 && eng->perm[i] < n) order.push_back(eng->perm[i]);
+    } else {
+      for (int i = 0; i < n; i++) order.push_back(i);
+    }
+    return order;
+  }
+  int smp_loop(int n_items, std::function<int(int)> const &worker) override
+  {
+    {
+      colvarmodule *cv = cvm::main();
+      last_cvc_items.clear();
+      cvc_loop_ran = true;
+      if ((int) cv->variables_active_smp()->size() == n_items) {
+        for (int i = 0; i < n_items; i++)
+          last_cvc_items.push_back(std::make_pair((*(cv->variables_active_smp()))[i]->name,
+                                                  (*(cv->variables_active_smp_items()))[i]));
+      }
+    }
+    if (eng->smp == "omp") return colvarproxy_smp::smp_loop(n_items, worker);
+    // explicit permutation, items dealt to nthreads std::threads
+    std::vector<int> order = schedule_order(n_items);
+    int error_code = COLVARS_OK;
+    std::vector<int> codes(std::max(1, eng->nthreads), 0);
+    run_schedule(order, [&](int i, int t) { codes[t] |= worker(i); }, true);
+    for (size_t t = 0; t < codes.size(); t++) error_code |= codes[t];
     return error_code;
+  }
+  void record_bias_items(bool with_script)
+  {
+    colvarmodule *cv = cvm::main();
+    last_bias_items.clear();
+    bias_loop_ran = true;
+    for (size_t i = 0; i < cv->biases_active()->size(); i++) last_bias_items.push_back((*(cv->biases_active()))[i]->name);
+    if (with_script) last_bias_items.push_back("<script>");
+  }
+  // items 0..n-1 are the active biases; item n (only with_script) is the scripted-force task
+  int biases_schedule(bool with_script)
+  {
+    colvarmodule *cv = cvm::main();
+    int n = cv->biases_active()->size();
+    std::vector<int> order = schedule_order(n + (with_script ? 1 : 0));
+    run_schedule(order, [&](int i, int) {
+      if (i == n) cv->calc_scripted_forces();
+      else (*(cv->biases_active()))[i]->update();
+    });
+    return cvm::get_error();
   }
   int smp_biases_loop() override
   {
+    record_bias_items(false);
     if (eng->smp == "omp") return colvarproxy_smp::smp_biases_loop();
-    colvarmodule *cv = cvm::main();
-    int n = cv->biases_active()->size();
-    std::vector<int> order;
-    for (int i = 0; i < n; i++) order.push_back(i);
-    if ((int) eng->perm.size() >= n && n > 0) {
-      order.clear();
-      for (size_t i = 0; i < eng->perm.size(); i++)
-        if (eng->perm[i] < n) order.push_back(eng->perm[i]);
-    }
-    int nt = std::max(1, eng->nthreads);
-    if (nt == 1) {
-      for (int i : order) (*(cv->biases_active()))[i]->update();
-    } else {
-      std::vector<std::thread> ths;
-      for (int t = 0; t < nt; t++) {
-        ths.emplace_back([&, t]() {
-          my_thread_id = t;
-          for (size_t k = t; k < order.size(); k += nt) (*(cv->biases_active()))[order[k]]->update();
-        });
-      }
-      for (auto &th : ths) th.join();
-    }
-    return cvm::get_error();
+    return biases_schedule(false);
   }
   int smp_biases_script_loop() override
   {
+    record_bias_items(true);
     if (eng->smp == "omp") return colvarproxy_smp::smp_biases_script_loop();
-    cvm::main()->calc_scripted_forces();
-    return smp_biases_loop();
+    return biases_schedule(true);
+  }
+  // (C12) the scripted-force task: what a `calc_colvar_forces` Tcl procedure would do with `cv colvar <v> addforce <f>`
+  int run_force_callback() override
+  {
+    if (force_callback) return force_callback();
+    if (!eng->script_forces.size()) return COLVARS_NOT_IMPLEMENTED;
+    for (auto &p : eng->script_forces) {
+      colvar *c = cvm::colvar_by_name(p.first);
+      if (!c) return COLVARS_ERROR;
+      c->add_bias_force(colvarvalue(p.second));
+    }
+    return COLVARS_OK;
   }
   int smp_thread_id() override
   {
@@ -398,7 +453,7 @@ struct vsim_session {
   vsim_session(std::ostream *o) : out(o)
   {
     show["cv"] = true; show["energy"] = true; show["bias"] = true; show["atomf"] = true;
-    show["tf"] = false; show["af"] = false; show["err"] = true;
+    show["tf"] = false; show["af"] = false; show["err"] = true; show["items"] = false;
   }
   ~vsim_session() { if (proxy) { delete proxy; proxy = NULL; } }
 
@@ -419,6 +474,19 @@ struct vsim_session {
     if (show["err"]) o << " err=" << vs_errclass(err | cvm::get_error());
     o << "\n";
     if (show["energy"]) o << "ENERGY " << vs_hex(proxy->bias_energy) << "\n";
+    if (show["items"]) {
+      if (proxy->cvc_loop_ran) {
+        o << "ITEMS";
+        for (auto &p : proxy->last_cvc_items) o << " " << p.first << ":" << p.second;
+        o << "\n";
+      }
+      if (proxy->bias_loop_ran) {
+        o << "BITEMS";
+        for (auto &n : proxy->last_bias_items) o << " " << n;
+        o << "\n";
+      }
+      proxy->cvc_loop_ran = proxy->bias_loop_ran = false;
+    }
     if (show["cv"]) {
       for (colvar *c : *(cv->variables())) {
         o << "CV " << c->name << " " << vs_hex(c->value()) << "\n";
@@ -479,6 +547,8 @@ struct vsim_session {
     else if (cmd == "gauss") { eng.gauss.clear(); eng.gauss_pos = 0; for (auto &s : a) eng.gauss.push_back(num(s)); }
     else if (cmd == "smp") { eng.smp = a[0]; if (a.size() > 1) eng.nthreads = atoi(a[1].c_str()); }
     else if (cmd == "perm") { eng.perm.clear(); for (auto &s : a) eng.perm.push_back(atoi(s.c_str())); }
+    else if (cmd == "assign") { eng.assign.clear(); for (auto &s : a) eng.assign.push_back(atoi(s.c_str())); }
+    else if (cmd == "forcescript") { eng.script_forces.clear(); for (size_t i = 0; i + 1 < a.size(); i += 2) eng.script_forces.push_back(std::make_pair(a[i], num(a[i + 1]))); }
     else if (cmd == "quiet") { quiet = atoi(a[0].c_str()) != 0; if (proxy) proxy->quiet = quiet; }
     else if (cmd == "log") { if (logfile.is_open()) logfile.close(); logfile.open(a[0].c_str()); if (proxy) proxy->logos = &logfile; }
     else if (cmd == "show") { for (size_t i = 0; i + 1 < a.size(); i += 2) show[a[i]] = atoi(a[i + 1].c_str()) != 0; }
@@ -528,8 +598,20 @@ struct vsim_session {
       int err = proxy->post_run();
       o << "POSTRUN err=" << vs_errclass(err | cvm::get_error()) << "\n";
     }
-    else if (cmd == "script") {
+    else if (cmd == "script" || cmd == "scriptq") {
       std::vector<std::string> words(a);
+      if (cmd == "scriptq") {   // words may be double-quoted: scriptq cv colvar x cvcflags "0 1 1"
+        words.clear();
+        size_t p = line.find("scriptq") + 7;
+        while (p < line.size()) {
+          while (p < line.size() && isspace((unsigned char) line[p])) p++;
+          if (p >= line.size()) break;
+          std::string w;
+          if (line[p] == '"') { p++; while (p < line.size() && line[p] != '"') w += line[p++]; p++; }
+          else { while (p < line.size() && !isspace((unsigned char) line[p])) w += line[p++]; }
+          words.push_back(w);
+        }
+      }
       std::vector<unsigned char *> argv;
       for (auto &s : words) argv.push_back((unsigned char *) s.c_str());
       cvm::clear_error();
@@ -539,6 +621,7 @@ struct vsim_session {
       o << "SCRIPT err=" << (err == COLVARS_OK ? "ok" : "error") << " result=" << res << "\n";
       cvm::clear_error();
     }
+    else if (cmd == "unbuffered") { o << std::unitbuf; }   // every line reaches the pipe at once (C11: processes that get killed)
     else if (cmd == "echo") { o << line << "\n"; }
     else if (cmd == "quit") { return false; }
     else if (!exec_extra(cmd, a, is)) {
